@@ -1,9 +1,10 @@
 """C09 -- total error handling and memory safety; transition buffers never overflow (other: P + B)."""
 import json
+import time
 import os
 import re
 import z3
-from vc import check, symex
+from vc import check, symex, build
 from . import common, zonescommon as zc
 from rtc import native, runner
 
@@ -49,6 +50,12 @@ def safety_obligations(R, names):
         except (symex.OutOfReach, symex.Undecided) as e:
             R.out_of_reach.append((n, str(e)))
             continue
+        except (z3.Z3Exception, KeyError) as e:
+            if R.mod.ptr_bits != 16:
+                raise
+            # 16-bit target: contracts or environment models that fix 64-bit pointer sorts do not apply
+            R.out_of_reach.append((n, 'contract / model written for 64-bit pointers: %s' % str(e)[:80]))
+            continue
         fn = ex.lookup_fn(n)
         keep = []
         for o in obs:
@@ -80,6 +87,30 @@ def run(R):
     skipped = list(R.out_of_reach)
     R.out_of_reach = []
     R.notes.append('value-class functions outside the executor\'s reach for the safety sweep: %r' % [(n, r[:80]) for n, r in skipped])
+    # (1b) the same sweep on the IR compiled for AVR (16-bit int): integer promotions are 16 bits wide there
+    t_avr = time.time()
+    from vc import ir as _ir
+    if getattr(R, 'mod_avr', None) is None:
+        R.mod_avr = _ir.load_ll(build.logic_ll(target='avr'))
+    x86_mod, R.mod = R.mod, R.mod_avr
+    try:
+        names_avr = value_class_functions(R)
+        fkeys = set(R.functions)
+        obs_avr = safety_obligations(R, names_avr)
+    finally:
+        R.mod = x86_mod
+    for k in [k for k in R.functions if k not in fkeys]:
+        R.functions['[avr] ' + k] = R.functions.pop(k)
+    for o in obs_avr:
+        o.name = o.name + '@avr'
+        o.info['target'] = 'avr'
+        o.fnobj = None
+    skipped_avr = [x for x in R.out_of_reach if x not in skipped]
+    R.out_of_reach = []
+    R.notes.append('AVR safety sweep: %d value-class functions, %d obligations, %d functions not decided in this pass (contracts / environment models fixing 64-bit pointers): %r' % (
+        len(names_avr), len(obs_avr), len(skipped_avr), [n for n, _ in skipped_avr][:8]))
+    R.log('AVR safety sweep: %d obligations (%.1fs)' % (len(obs_avr), time.time() - t_avr))
+    obs += obs_avr
     # (2) the transition pool and searches, under their representation invariant
     pool = common.names_for(R, 'C09')
     obs += check.verify_functions(R, pool)
